@@ -14,7 +14,7 @@ LEAN_MODULES = ["NiftyVerif.Props.C24"]
 DRIVER = "Driver/C24.lean"
 OBLIGATIONS = ["NiftyVerif.C24." + t for t in (
     "never_unresumable", "crash_safe", "crash_safe_single", "final_files", "natSys_lawful",
-    "inplace_not_crash_safe", "inplace_witness")]
+    "inplace_not_crash_safe", "inplace_witness", "inplace_crash_states", "resume_possible_iff", "natSys_prefixFree")]
 RULE = ("case = (model configuration, sequence of kill points of successive runs, then an unkilled resume); ALL single "
         "kill points of the MODEL's byte-granular operation sequence (every op boundary, every position inside a "
         "write) plus random double/triple kills are mapped to the real run (before op / partial write with the same "
